@@ -121,6 +121,11 @@ int main(int argc, char** argv)
     CDNS::CdnsExporter writer(file_preamble, output_file, CDNS::CborOutputCompression::NO_COMPRESSION);
 
     for (auto input: input_files) {
+        // Input files that couldn't be merged in the first pass contribute nothing
+        auto file_indexes = block_indexes.find(input);
+        if (file_indexes == block_indexes.end())
+            continue;
+
         try {
             std::ifstream ifs(input, std::ifstream::binary);
             CDNS::CdnsReader reader(ifs);
@@ -133,7 +138,11 @@ int main(int argc, char** argv)
                     break;
 
                 // Assign new block parameters index for this block in output file
-                block.m_block_preamble.block_parameters_index = block_indexes[input][block.get_block_parameters_index()];
+                auto new_index = file_indexes->second.find(block.get_block_parameters_index());
+                if (new_index == file_indexes->second.end())
+                    throw std::runtime_error("Unknown block parameters index in a block of " + input);
+
+                block.m_block_preamble.block_parameters_index = new_index->second;
 
                 writer.write_block(block);
             }
